@@ -1,5 +1,6 @@
 """C05 - expression simplification preserves meaning (value and width) and terminates.
 
+
 Generators: random well-typed trees (exprgen) + one template per rewrite rule (rulegen);
 8-bit two-variable rule instances are evaluated on ALL 2^16 valuations.
 Oracle: reference interpreter vlib/irsem.py.
@@ -7,6 +8,7 @@ Failures are reduced to a minimal failing sub-expression, generalised (children 
 identifiers while the failure persists) and the resulting *shape* is the root-cause signature.
 """
 import sys
+MEM_LIMIT = 6 << 30       # bytes of address space for this check's processes (see vlib/main.py)
 from hypothesis import strategies as st
 from vlib import runner, irsem, exprgen, rulegen
 from vlib.exprgen import build, sshow, swidth, sids, snodes
